@@ -37,6 +37,26 @@ Definition C11_quiesces : Prop :=
     exists n, forall m, (n <= m)%nat ->
       quiescent pre C (run pre C (sched ++ rounds C m) (init C)).
 
+(* the fault site lies on the path of every complete run of the layout *)
+Definition site_reached (C : cfg) : bool :=
+  let L := c_lay C in
+  match c_fault C with
+  | FNone => false
+  | FExists i => Nat.leb i (nfiles L)
+  | FOpen i | FHeader i => Nat.ltb i (nfiles L)
+  | FRead i k => Nat.ltb i (nfiles L) && Nat.leb k (length (file_of L i))
+  | FPre i k => Nat.ltb i (nfiles L) &&
+                match nth_error (file_of L i) k with Some b => keep L i b | None => false end
+  | FHandler n => Nat.ltb n (length (expected_blocks L))
+  end.
+
+(* ... and when the fault site lies on the path of a complete run, the second alternative is
+   impossible: in every quiescent state Run has returned *)
+Definition C11_fires : Prop :=
+  forall pre C sched, fixed C -> site_reached C = true ->
+    let s := run pre C sched (init C) in
+    quiescent pre C s -> returned s = true.
+
 (* ---- c11_error ----
    When Run has returned, Err() is set and identifies the cause: it is the class of the
    injected fault, or nil from the outside Shutdown, or — the fault having had no effect on
